@@ -608,9 +608,12 @@ func tryInsertLiteral(ad *classad.ClassAd, attr, valueStr string) error {
 	// String literals (quoted)
 	trimmed := strings.TrimSpace(valueStr)
 	if len(trimmed) >= 2 && trimmed[0] == '"' && trimmed[len(trimmed)-1] == '"' {
-		// Simple string without escape sequences
+		// Simple string without escape sequences. An interior double quote means the
+		// value is not one string literal (e.g. the expression "a" + "b"): leave it
+		// to the full parser. The sender renders a quote inside a string as \", so
+		// a legitimately quoted string already takes the parser path via the backslash.
 		unquoted := trimmed[1 : len(trimmed)-1]
-		if !strings.Contains(unquoted, "\\") {
+		if !strings.ContainsAny(unquoted, "\\\"") {
 			_ = ad.Set(attr, unquoted) // ClassAd.Set always returns nil, safe to ignore
 			return nil
 		}
